@@ -279,7 +279,9 @@ def emit_rust(entries, stacks):
         w("    }")
         # push_all_form / from_all_form
         for fn, call, ret in (("push_all_form<K: Sink<Self>>(sink: &mut K, form: &str, ws: &[Self::Owned]) -> Option<()>", "sink.put_all(%s)", "()"),
-                              ("from_all_form<K: Sink<Self>>(form: &str, ws: &[Self::Owned]) -> Option<K>", "K::from_all(%s)", "")):
+                              ("from_all_form<K: Sink<Self>>(form: &str, ws: &[Self::Owned]) -> Option<K>", "K::from_all(%s)", ""),
+                              ("push_all_loose_form<K: Sink<Self>>(sink: &mut K, form: &str, ws: &[Self::Owned]) -> Option<()>", "sink.put_all_loose(%s)", "()"),
+                              ("from_all_loose_form<K: Sink<Self>>(form: &str, ws: &[Self::Owned]) -> Option<K>", "K::from_all_loose(%s)", "")):
             w("    fn %s {" % fn)
             w("        Some(match form {")
             for f in fs:
